@@ -132,14 +132,28 @@ pub fn hist_opts(tier: Tier, rng: &mut Rng) -> LibOpts {
     o
 }
 
+/// hostile history: every version is a soup of Markdown fragments or a run of unusual-but-legal shapes
+fn hostile_history(rng: &mut Rng) -> History {
+    let keys = ["n1", "n2", "d1/n3"];
+    let mut initial = BTreeMap::new();
+    let mut text = |rng: &mut Rng| if rng.chance(1, 2) { crate::checks::crash03::soup(rng, 40) } else { crate::checks::crash03::shapes(rng, 6) };
+    for k in keys.iter().take(rng.range(1, 3)) {
+        initial.insert(k.to_string(), text(rng));
+    }
+    let steps = (0..rng.range(1, 6))
+        .map(|_| hist::Step { key: rng.pick(&keys).to_string(), text: text(rng), what: "soup".into(), insert: rng.chance(1, 4) })
+        .collect();
+    History { initial, steps }
+}
+
 impl Check for HistCheck {
     fn id(&self) -> &'static str {
         self.prop
     }
     fn rule(&self) -> String {
         match self.prop {
-            "C04" => "case = one edit history (initial library 0-7 notes; 1-30 steps of update/insert on existing and new keys, each new version an edit of the previous one: remove/rename title, drop last reference, table before link, toggle front matter, revert, rewrite ...); after EVERY step the observation vector (exports, raw documents, titles, block+inline backlinks with lines, paths, ordered search results, node-at-line) of the incremental Database is compared with a Database built from scratch; distinct = hash of the step-kind sequence".into(),
-            _ => "case = one edit history as for C04 plus patch-graph constructions (collect -> build_key_from_iter, squash -> build); the invariant walker runs on every graph handed over by hook H2 (after import/update/build, before render) and after every step; arena length / tombstone monotonicity and DFS order == source block order checked per step; distinct = hash of step kinds".into(),
+            "C04" => "case = one edit history (initial library 0-7 notes; 1-30 steps of update/insert on existing and new keys, each new version an edit of the previous one: remove/rename title, drop last reference, table before link, toggle front matter, revert, rewrite ...); after EVERY step the observation vector (exports, raw documents, titles, block+inline backlinks with lines, paths, ordered search results, node-at-line) of the incremental Database is compared with a Database built from scratch; one case in seven is a hostile history (every version a soup of Markdown fragments or a run of unusual-but-legal shapes: items that start with lists, empty items, quotes in items ...), judged by the same comparison; distinct = hash of the step-kind sequence".into(),
+            _ => "case = one edit history as for C04 plus patch-graph constructions (collect -> build_key_from_iter, squash -> build); the invariant walker runs on every graph handed over by hook H2 (after import/update/build, before render) and after every step; arena length / tombstone monotonicity and DFS order == source block order checked per step; one case in five is a hostile history (fragment soups and unusual-but-legal shapes) under the same walker (no comparison with the scanner there; a panic is C03's business); distinct = hash of step kinds".into(),
         }
     }
     fn assumptions(&self) -> Vec<String> {
@@ -172,21 +186,18 @@ impl Check for HistCheck {
         }
         let ext = if rng.chance(1, 3) { ".md" } else { "" };
         match self.prop {
+            "C04" if case % 7 == 6 => {
+                // the incremental == fresh comparison holds for ANY text (the same code answers on both sides)
+                let hh = hostile_history(&mut rng);
+                rep.count("hostile_histories", 1);
+                self.run_c04_mode(&hh, ext, &mut rep, true)
+            }
             "C04" => self.run_c04(&h, ext, &mut rep),
             _ if case % 5 == 4 => {
                 // hostile histories: every version is a soup of Markdown fragments (empty items, lists that hold only
                 // empty lists, stray delimiters ...). The forest invariants hold for ANY text; only the comparison with the
                 // independent scanner is dropped (the two parsers may disagree on such input), and a panic is C03's business.
-                let keys = ["n1", "n2", "d1/n3"];
-                let mut initial = BTreeMap::new();
-                let mut text = |rng: &mut Rng| if rng.chance(1, 2) { crate::checks::crash03::soup(rng, 40) } else { crate::checks::crash03::shapes(rng, 6) };
-                for k in keys.iter().take(rng.range(1, 3)) {
-                    initial.insert(k.to_string(), text(&mut rng));
-                }
-                let steps = (0..rng.range(1, 6))
-                    .map(|_| hist::Step { key: rng.pick(&keys).to_string(), text: text(&mut rng), what: "soup".into(), insert: rng.chance(1, 4) })
-                    .collect();
-                let hh = History { initial, steps };
+                let hh = hostile_history(&mut rng);
                 rep.count("hostile_histories", 1);
                 self.run_c20_mode(&hh, ext, &mut rep, true)
             }
@@ -204,6 +215,10 @@ impl Check for HistCheck {
 
 impl HistCheck {
     fn run_c04(&self, h: &History, ext: &str, rep: &mut CaseReport) {
+        self.run_c04_mode(h, ext, rep, false)
+    }
+
+    fn run_c04_mode(&self, h: &History, ext: &str, rep: &mut CaseReport, hostile: bool) {
         let opts = MarkdownOptions {
             refs_extension: ext.to_string(),
         };
@@ -245,12 +260,13 @@ impl HistCheck {
                     let clause = comp.split(':').next().unwrap_or("").to_string();
                     rep.violate(
                         &format!("stale-{}", clause),
-                        "clean",
+                        if hostile { "hostile" } else { "clean" },
                         format!("after step {} ({} {}): {} differs: {}", i, h.steps[i].what, h.steps[i].key, comp, detail),
                         replay(i),
                     );
                 }
             }
+            Err(_) if hostile => rep.count("hostile_histories_that_panicked", 1),
             Err(p) => rep.violate("panic", &format!("{}@clean", p.signature()), p.message.clone(), replay(h.steps.len() - 1)),
         }
     }
